@@ -39,8 +39,8 @@ CHECKS = {
  "C09": ("history checker against a bit-exact BIP37 model (independent MurmurHash3) after every step; sizing-limit monitor over hostile (elements, fprate)",
          "Seeded operation histories on filters of every size class, hash count and tweak are compared byte for byte with the model after every step, and every item inserted since the last reload is required to match (own counter); MurmurHash3 is compared for every length 0..64.",
          "Filter size 0 belongs to C08.", "3 C09"),
- "C10": ("exact per-transaction model of MatchTxAndUpdate (result and filter bytes) + block-level sandwich oracle E <= reported <= matches(final filter) over permutations of generated spend graphs; three scanner APIs compared",
-         "The per-transaction oracle is bit exact (bloom false positives are reproduced, not excluded); the block-level oracle is sound under any false-positive rate because the lower bound uses exact sets and the upper bound the final real filter. txscript.PushedData / GetScriptClass define 'data push' and script class.",
+ "C10": ("exact per-transaction model of MatchTxAndUpdate (result and filter bytes) + block-level sandwich oracle E <= reported <= matches(final filter) over permutations of generated spend graphs; three scanner APIs compared; event monitor on hooked insertions (bloom.VerifSetAddHook): every item a scan inserts is an outpoint the flag prescribes, and every in-block spender of an inserted outpoint is reported",
+         "The per-transaction oracle is bit exact (bloom false positives are reproduced, not excluded); the block-level oracle is sound under any false-positive rate because the lower bound uses exact sets and the upper bound the final real filter; the insertion-event monitor covers relevance that arises through bloom false positives during the scan. txscript.PushedData / GetScriptClass define 'data push' and script class.",
          "", "3 C10"),
  "C11": ("reference-model monitor: independent BIP37 partial-merkle-tree builder and extractor vs both proof builders and the decoder; all 2^n subsets for n<=12",
          "For n<=12 every subset is enumerated; every n<=65 with structured subsets; seeded n up to 3000; filter-induced subsets must give identical messages from both builders.",
@@ -86,7 +86,7 @@ def implemented():
     return ids
 
 def main():
-    hooks_commit = "ad2749b"
+    hooks_commits = ["ad2749b", "fbe1eff"]
     have = implemented()
     checks = []
     for pid in ALL:
@@ -113,7 +113,7 @@ def main():
             "guard": "verif (Go build tag)",
             "enable": "go build -tags verif (the harness module in /verif/harness replaces github.com/gcash/bchutil with /repo, so every check compiles /repo's working tree)",
             "baseline_off_cmd": "cd /repo && GOFLAGS=-mod=mod GOPROXY=off GOSUMDB=off GOTOOLCHAIN=local go test -json -vet=off -count=1 -timeout 25m ./...",
-            "source_commits": [hooks_commit],
+            "source_commits": hooks_commits,
             "add_only": True,
         },
         "engines": [{
